@@ -1,7 +1,895 @@
-//! C09 — stub (not built yet).
+//! C09 — RRDP files round-trip; hostile XML is rejected within fixed bounds.
+//!
+//! Sub-checks:
+//!  * `roundtrip`      value -> write_xml -> parse (owned parsers and harness
+//!                     implementations of ProcessSnapshot / ProcessDelta)
+//!  * `big`            files larger than the header limit whose single
+//!                     elements stay below the limits must still parse
+//!  * `bytes`          arbitrary / XML-aware mutated bytes: Ok or Err, no panic
+//!  * `streams-header` unbounded lazy streams bounded by the 1 MB limit
+//!  * `streams-file`   unbounded lazy streams bounded by the 100 MB limit
+//!  * `deltas`         sort_and_verify_deltas / has_matching_origins vs model
 
 use crate::engine::*;
+use crate::gen::{dense_u128, U128};
+use bytes::Bytes;
+use proptest::prelude::*;
+use rpki::rrdp::{
+    Delta, DeltaElement, DeltaInfo, Hash, NotificationFile, ObjectReader, ProcessDelta, ProcessError,
+    ProcessSnapshot, PublishElement, Snapshot, UpdateElement, UriAndHash, WithdrawElement,
+};
+use rpki::uri;
+use serde::{Deserialize, Serialize};
+use std::io::{self, BufRead, Read};
+use std::str::FromStr;
+use uuid::Uuid;
+
+#[path = "c09_bytes.rs"]
+mod bytes_check;
+#[path = "c09_streams.rs"]
+mod streams;
+
+pub const RULE: &str = "roundtrip: random NotificationFile / Snapshot / Delta values (UUID and serial from boundary-dense \
+strategies over the whole range, HTTPS/rsync URIs over the library's URI alphabet with elevated '&' and ''' and \
+mixed-case scheme/authority, hashes, object bytes 0..64 KiB incl. empty, 0..200 deltas, any element order), written with \
+write_xml and read back through parse / parse_limited and through harness implementations of ProcessSnapshot / \
+ProcessDelta (object data read in chunks of 1..n bytes), reader buffer sizes 1 byte..whole file; oracle = field-by-field \
+comparison with the generated plain data plus library ==; non-trivial = >=2 elements and a URI containing & or '. \
+big: fixed files of 1.3-24 MB whose elements are each below the limits (they must parse). bytes: arbitrary bytes, \
+hand-written templates, written files and /repo/test-data/rrdp files under 0..6 XML-aware mutations (dictionary token \
+insertion at syntax positions, splice, duplicate, truncate, bit flip, nesting, global token replacement) into every \
+parser; oracle = no panic, and every Ok value v satisfies parse(write(v)) == v; non-trivial = at least one parser \
+returned Ok after >=1 mutation or all returned Err. streams: complete enumeration of (file kind x place x opener x \
+endless filler x number of preceding valid elements x reader buffer size) for unbounded lazily generated streams; oracle \
+= Err and bytes consumed <= start of the offending element + configured limit (1 000 000 header / 100 000 000 publish) \
++ 2 buffers, the reader itself fails 16 MiB later; every case non-trivial. deltas: serial multisets (duplicates, gaps, \
+u64::MAX, unsorted, empty) x limits (None, 0, 1, n-1, n, n+1, large) and authority sets (case variants, ports, empty); \
+oracle = sort / keep newest limit / windows(2) b == a+1 with checked arithmetic, authorities equal ignoring ASCII case; \
+non-trivial = >=3 serials with a duplicate or gap.";
+
+//------------ small helpers ---------------------------------------------------
+
+pub(crate) fn splitmix(x: &mut u64) -> u64 {
+    *x = x.wrapping_add(0x9E37_79B9_7F4A_7C15);
+    let mut z = *x;
+    z = (z ^ (z >> 30)).wrapping_mul(0xBF58_476D_1CE4_E5B9);
+    z = (z ^ (z >> 27)).wrapping_mul(0x94D0_49BB_1331_11EB);
+    z ^ (z >> 31)
+}
+
+pub(crate) fn gen_bytes(seed: u64, len: usize) -> Vec<u8> {
+    let mut x = seed;
+    let mut out = Vec::with_capacity(len + 8);
+    while out.len() < len {
+        out.extend_from_slice(&splitmix(&mut x).to_le_bytes());
+    }
+    out.truncate(len);
+    out
+}
+
+pub(crate) fn hash32(seed: u64) -> [u8; 32] {
+    match seed {
+        0 => [0u8; 32],
+        u64::MAX => [0xffu8; 32],
+        s => {
+            let v = gen_bytes(s, 32);
+            let mut out = [0u8; 32];
+            out.copy_from_slice(&v);
+            out
+        }
+    }
+}
+
+pub(crate) fn dense_u64() -> BoxedStrategy<u64> {
+    prop_oneof![
+        3 => prop::sample::select(vec![
+            0u64, 1, 2, u64::MAX, u64::MAX - 1, u64::MAX - 2, 1 << 63, (1 << 63) - 1,
+            u32::MAX as u64, u32::MAX as u64 + 1, i64::MAX as u64 + 1, 9_999_999_999_999_999_999, 10_000_000_000_000_000_000
+        ]),
+        2 => (0u32..64, -1i64..=1).prop_map(|(k, d)| (1u64 << k).wrapping_add(d as u64)),
+        2 => 0u64..1000,
+        2 => any::<u64>(),
+    ]
+    .boxed()
+}
+
+//------------ plain-data specs -------------------------------------------------
+
+#[derive(Clone, Debug, Serialize, Deserialize, PartialEq, Eq)]
+pub enum DataSpec {
+    Lit(Vec<u8>),
+    Gen { seed: u64, len: u32 },
+}
+
+impl DataSpec {
+    pub fn bytes(&self) -> Vec<u8> {
+        match self {
+            DataSpec::Lit(v) => v.clone(),
+            DataSpec::Gen { seed, len } => gen_bytes(*seed, *len as usize),
+        }
+    }
+}
+
+#[derive(Clone, Debug, Serialize, Deserialize)]
+pub struct DeltaInfoSpec {
+    pub serial: u64,
+    pub uri: String,
+    pub hash: u64,
+}
+
+#[derive(Clone, Debug, Serialize, Deserialize)]
+pub struct NotifSpec {
+    pub session: U128,
+    pub serial: u64,
+    pub snap_uri: String,
+    pub snap_hash: u64,
+    pub deltas: Vec<DeltaInfoSpec>,
+}
+
+#[derive(Clone, Debug, Serialize, Deserialize)]
+pub struct PubSpec {
+    pub uri: String,
+    pub data: DataSpec,
+}
+
+#[derive(Clone, Debug, Serialize, Deserialize)]
+pub struct SnapSpec {
+    pub session: U128,
+    pub serial: u64,
+    pub elements: Vec<PubSpec>,
+}
+
+#[derive(Clone, Debug, Serialize, Deserialize)]
+pub enum ElSpec {
+    Publish { uri: String, data: DataSpec },
+    Update { uri: String, hash: u64, data: DataSpec },
+    Withdraw { uri: String, hash: u64 },
+}
+
+#[derive(Clone, Debug, Serialize, Deserialize)]
+pub struct DeltaSpec {
+    pub session: U128,
+    pub serial: u64,
+    pub elements: Vec<ElSpec>,
+}
+
+#[derive(Clone, Debug, Serialize, Deserialize)]
+pub enum FileSpec {
+    Notification(NotifSpec),
+    Snapshot(SnapSpec),
+    Delta(DeltaSpec),
+}
+
+#[derive(Clone, Debug, Serialize, Deserialize)]
+pub struct RoundTrip {
+    pub file: FileSpec,
+    /// 0: parse from a slice; otherwise BufReader capacity.
+    pub bufsize: u16,
+    /// 0: read_to_end; otherwise the chunk size used to read object data.
+    pub read_chunk: u8,
+    /// delta limit for parse_limited
+    pub limit: u8,
+}
+
+//------------ URI strategies ----------------------------------------------------
+
+fn uri_char() -> BoxedStrategy<char> {
+    prop_oneof![
+        3 => prop::sample::select(vec!['&', '\'']),
+        2 => prop::sample::select(vec![';', '=', '+', ',', '$', '!', '*', '(', ')', '~', ':', '%', '_', '-', '.']),
+        4 => prop::sample::select(
+            "abcdefghijklmnopqrstuvwxyzABCDEFGHIJKLMNOPQRSTUVWXYZ0123456789".chars().collect::<Vec<_>>()
+        ),
+    ]
+    .boxed()
+}
+
+fn segment() -> BoxedStrategy<String> {
+    prop::collection::vec(uri_char(), 1..8)
+        .prop_map(|v| {
+            let s: String = v.into_iter().collect();
+            if s == "." || s == ".." { "x".to_string() } else { s }
+        })
+        .boxed()
+}
+
+pub(crate) fn authority() -> BoxedStrategy<String> {
+    prop_oneof![
+        4 => prop::sample::select(vec![
+            "example.com", "EXAMPLE.com", "rpki.example.net:8443", "h", "10.0.0.1", "a-b.c", "rrdp.ripe.net"
+        ]).prop_map(|s| s.to_string()),
+        1 => "[A-Za-z0-9][A-Za-z0-9.-]{0,10}".prop_map(|s| s),
+        1 => "[a-z]{1,3}".prop_map(|s| format!("{}&{}'", s, s)),
+    ]
+    .boxed()
+}
+
+pub(crate) fn rsync_uri() -> BoxedStrategy<String> {
+    (
+        prop::sample::select(vec!["rsync://", "rsync://", "rsync://", "RSYNC://", "rSync://"]),
+        authority(),
+        segment(),
+        prop::collection::vec(segment(), 0..4),
+        any::<bool>(),
+    )
+        .prop_map(|(scheme, auth, module, segs, dir)| {
+            let mut s = format!("{}{}/{}/", scheme, auth, module);
+            s.push_str(&segs.join("/"));
+            if dir && !segs.is_empty() {
+                s.push('/');
+            }
+            s
+        })
+        .boxed()
+}
+
+pub(crate) fn https_uri() -> BoxedStrategy<String> {
+    (
+        prop::sample::select(vec!["https://", "https://", "https://", "HTTPS://", "hTTps://"]),
+        authority(),
+        prop::option::weighted(0.9, prop::collection::vec(prop_oneof![6 => segment(), 1 => Just(String::new()), 1 => Just(".".to_string())], 0..4)),
+    )
+        .prop_map(|(scheme, auth, path)| {
+            let mut s = format!("{}{}", scheme, auth);
+            if let Some(segs) = path {
+                s.push('/');
+                s.push_str(&segs.join("/"));
+            }
+            s
+        })
+        .boxed()
+}
+
+fn data_spec() -> BoxedStrategy<DataSpec> {
+    prop_oneof![
+        2 => Just(DataSpec::Lit(vec![])),
+        5 => prop::collection::vec(any::<u8>(), 0..12).prop_map(DataSpec::Lit),
+        4 => (any::<u64>(), 0u32..400).prop_map(|(seed, len)| DataSpec::Gen { seed, len }),
+        1 => (any::<u64>(), prop::sample::select(vec![1u32, 2, 3, 56, 57, 58, 1023, 1024, 1025, 8191, 8192, 8193, 49151, 49152, 65535, 65536]))
+            .prop_map(|(seed, len)| DataSpec::Gen { seed, len }),
+        1 => (any::<u64>(), 0u32..=65536).prop_map(|(seed, len)| DataSpec::Gen { seed, len }),
+    ]
+    .boxed()
+}
+
+fn count_strategy(max: usize) -> BoxedStrategy<usize> {
+    prop_oneof![4 => 0usize..4, 3 => 0usize..20, 1 => 0usize..=max].boxed()
+}
+
+fn hash_seed() -> BoxedStrategy<u64> {
+    prop_oneof![1 => Just(0u64), 1 => Just(u64::MAX), 6 => any::<u64>()].boxed()
+}
+
+fn notif_spec() -> BoxedStrategy<NotifSpec> {
+    count_strategy(200)
+        .prop_flat_map(|n| {
+            (
+                dense_u128(),
+                dense_u64(),
+                https_uri(),
+                hash_seed(),
+                prop::collection::vec((dense_u64(), https_uri(), hash_seed()), n..=n),
+            )
+        })
+        .prop_map(|(session, serial, snap_uri, snap_hash, deltas)| NotifSpec {
+            session: U128(session),
+            serial,
+            snap_uri,
+            snap_hash,
+            deltas: deltas.into_iter().map(|(serial, uri, hash)| DeltaInfoSpec { serial, uri, hash }).collect(),
+        })
+        .boxed()
+}
+
+fn snap_spec() -> BoxedStrategy<SnapSpec> {
+    count_strategy(40)
+        .prop_flat_map(|n| (dense_u128(), dense_u64(), prop::collection::vec((rsync_uri(), data_spec()), n..=n)))
+        .prop_map(|(session, serial, els)| SnapSpec {
+            session: U128(session),
+            serial,
+            elements: els.into_iter().map(|(uri, data)| PubSpec { uri, data }).collect(),
+        })
+        .boxed()
+}
+
+fn el_spec() -> BoxedStrategy<ElSpec> {
+    prop_oneof![
+        (rsync_uri(), data_spec()).prop_map(|(uri, data)| ElSpec::Publish { uri, data }),
+        (rsync_uri(), hash_seed(), data_spec()).prop_map(|(uri, hash, data)| ElSpec::Update { uri, hash, data }),
+        (rsync_uri(), hash_seed()).prop_map(|(uri, hash)| ElSpec::Withdraw { uri, hash }),
+    ]
+    .boxed()
+}
+
+fn delta_spec() -> BoxedStrategy<DeltaSpec> {
+    count_strategy(40)
+        .prop_flat_map(|n| (dense_u128(), dense_u64(), prop::collection::vec(el_spec(), n..=n)))
+        .prop_map(|(session, serial, elements)| DeltaSpec { session: U128(session), serial, elements })
+        .boxed()
+}
+
+pub(crate) fn file_spec() -> BoxedStrategy<FileSpec> {
+    prop_oneof![
+        notif_spec().prop_map(FileSpec::Notification),
+        snap_spec().prop_map(FileSpec::Snapshot),
+        delta_spec().prop_map(FileSpec::Delta),
+    ]
+    .boxed()
+}
+
+fn roundtrip_strategy(_: Tier) -> BoxedStrategy<RoundTrip> {
+    (
+        file_spec(),
+        prop_oneof![3 => Just(0u16), 2 => 1u16..64, 1 => any::<u16>()],
+        prop_oneof![2 => Just(0u8), 2 => 1u8..8, 1 => any::<u8>()],
+        any::<u8>(),
+    )
+        .prop_map(|(file, bufsize, read_chunk, limit)| RoundTrip { file, bufsize, read_chunk, limit })
+        .boxed()
+}
+
+//------------ building library values ---------------------------------------------
+
+fn gen_err(what: &str, s: &str, e: impl std::fmt::Display) -> Fail {
+    Fail::new(format!("generator produced an invalid {} '{}': {}", what, s, e))
+}
+
+pub(crate) fn https(s: &str) -> Result<uri::Https, Fail> {
+    uri::Https::from_str(s).map_err(|e| gen_err("https URI", s, e))
+}
+
+pub(crate) fn rsync(s: &str) -> Result<uri::Rsync, Fail> {
+    uri::Rsync::from_str(s).map_err(|e| gen_err("rsync URI", s, e))
+}
+
+pub(crate) fn build_notification(n: &NotifSpec) -> Result<NotificationFile, Fail> {
+    let mut deltas = Vec::with_capacity(n.deltas.len());
+    for d in &n.deltas {
+        deltas.push(DeltaInfo::new(d.serial, https(&d.uri)?, Hash::from(hash32(d.hash))));
+    }
+    Ok(NotificationFile::new(
+        Uuid::from_u128(n.session.0),
+        n.serial,
+        UriAndHash::new(https(&n.snap_uri)?, Hash::from(hash32(n.snap_hash))),
+        deltas,
+    ))
+}
+
+pub(crate) fn build_snapshot(s: &SnapSpec) -> Result<Snapshot, Fail> {
+    let mut els = Vec::with_capacity(s.elements.len());
+    for e in &s.elements {
+        els.push(PublishElement::new(rsync(&e.uri)?, Bytes::from(e.data.bytes())));
+    }
+    Ok(Snapshot::new(Uuid::from_u128(s.session.0), s.serial, els))
+}
+
+pub(crate) fn build_delta(d: &DeltaSpec) -> Result<Delta, Fail> {
+    let mut els = Vec::with_capacity(d.elements.len());
+    for e in &d.elements {
+        els.push(match e {
+            ElSpec::Publish { uri, data } => DeltaElement::Publish(PublishElement::new(rsync(uri)?, Bytes::from(data.bytes()))),
+            ElSpec::Update { uri, hash, data } => DeltaElement::Update(UpdateElement::new(
+                rsync(uri)?,
+                Hash::from(hash32(*hash)),
+                Bytes::from(data.bytes()),
+            )),
+            ElSpec::Withdraw { uri, hash } => DeltaElement::Withdraw(WithdrawElement::new(rsync(uri)?, Hash::from(hash32(*hash)))),
+        });
+    }
+    Ok(Delta::new(Uuid::from_u128(d.session.0), d.serial, els))
+}
+
+pub(crate) fn write_file(f: &FileSpec) -> Result<Vec<u8>, Fail> {
+    let mut out = Vec::new();
+    let r = match f {
+        FileSpec::Notification(n) => build_notification(n)?.write_xml(&mut out),
+        FileSpec::Snapshot(s) => build_snapshot(s)?.write_xml(&mut out),
+        FileSpec::Delta(d) => build_delta(d)?.write_xml(&mut out),
+    };
+    r.map_err(|e| Fail::new(format!("write_xml into a Vec failed: {}", e)))?;
+    Ok(out)
+}
+
+//------------ harness processors ---------------------------------------------------
+
+fn read_object(data: &mut ObjectReader, chunk: u8) -> Result<Vec<u8>, io::Error> {
+    let mut out = Vec::new();
+    if chunk == 0 {
+        data.read_to_end(&mut out)?;
+    } else {
+        let mut buf = vec![0u8; chunk as usize];
+        loop {
+            let n = data.read(&mut buf)?;
+            if n == 0 {
+                break;
+            }
+            out.extend_from_slice(&buf[..n]);
+        }
+    }
+    Ok(out)
+}
+
+/// What a processor saw, in call order.
+#[derive(Debug, PartialEq, Eq, Clone)]
+pub(crate) enum Seen {
+    Meta(u128, u64),
+    Publish(String, Option<[u8; 32]>, Vec<u8>),
+    Withdraw(String, [u8; 32]),
+}
+
+pub(crate) struct Collector {
+    pub seen: Vec<Seen>,
+    pub chunk: u8,
+    /// do not read the object data at all
+    pub skip_data: bool,
+}
+
+impl Collector {
+    pub fn new(chunk: u8) -> Self {
+        Collector { seen: Vec::new(), chunk, skip_data: false }
+    }
+}
+
+fn hash_arr(h: &Hash) -> [u8; 32] {
+    let mut a = [0u8; 32];
+    a.copy_from_slice(h.as_slice());
+    a
+}
+
+impl ProcessSnapshot for Collector {
+    type Err = ProcessError;
+    fn meta(&mut self, session_id: Uuid, serial: u64) -> Result<(), ProcessError> {
+        self.seen.push(Seen::Meta(session_id.as_u128(), serial));
+        Ok(())
+    }
+    fn publish(&mut self, uri: uri::Rsync, data: &mut ObjectReader) -> Result<(), ProcessError> {
+        let d = if self.skip_data { Vec::new() } else { read_object(data, self.chunk)? };
+        self.seen.push(Seen::Publish(uri.as_str().to_string(), None, d));
+        Ok(())
+    }
+}
+
+pub(crate) struct DeltaCollector(pub Collector);
+
+impl ProcessDelta for DeltaCollector {
+    type Err = ProcessError;
+    fn meta(&mut self, session_id: Uuid, serial: u64) -> Result<(), ProcessError> {
+        self.0.seen.push(Seen::Meta(session_id.as_u128(), serial));
+        Ok(())
+    }
+    fn publish(&mut self, uri: uri::Rsync, hash: Option<Hash>, data: &mut ObjectReader) -> Result<(), ProcessError> {
+        let d = if self.0.skip_data { Vec::new() } else { read_object(data, self.0.chunk)? };
+        self.0.seen.push(Seen::Publish(uri.as_str().to_string(), hash.as_ref().map(hash_arr), d));
+        Ok(())
+    }
+    fn withdraw(&mut self, uri: uri::Rsync, hash: Hash) -> Result<(), ProcessError> {
+        self.0.seen.push(Seen::Withdraw(uri.as_str().to_string(), hash_arr(&hash)));
+        Ok(())
+    }
+}
+
+/// Runs `f` on a reader over `bytes` with the requested buffering.
+pub(crate) fn with_reader<T>(bytes: &[u8], bufsize: u16, f: impl FnOnce(&mut dyn BufRead) -> T) -> T {
+    if bufsize == 0 {
+        let mut s = bytes;
+        f(&mut s)
+    } else {
+        let mut r = io::BufReader::with_capacity(bufsize as usize, bytes);
+        f(&mut r)
+    }
+}
+
+//------------ roundtrip --------------------------------------------------------------
+
+fn special(u: &str) -> bool {
+    u.contains('&') || u.contains('\'')
+}
+
+/// URIs compare like the library compares them (scheme and authority ignore
+/// ASCII case); the spec string is parsed again for that.
+fn same_rsync(got: &uri::Rsync, spec: &str) -> Result<bool, Fail> {
+    Ok(*got == rsync(spec)?)
+}
+
+fn run_roundtrip(c: &RoundTrip, obs: &mut Obs) -> CheckResult {
+    let xml = write_file(&c.file)?;
+    match &c.file {
+        FileSpec::Notification(n) => {
+            obs.label("notification");
+            let value = build_notification(n)?;
+            let parsed = with_reader(&xml, c.bufsize, |r| NotificationFile::parse(r));
+            let parsed = match parsed {
+                Ok(p) => p,
+                Err(e) => {
+                    return Err(Fail::sig(
+                        "roundtrip-parse-failed",
+                        format!("written notification does not parse back: {} ({} bytes)", e, xml.len()),
+                    ))
+                }
+            };
+            ensure_eq!(parsed.session_id().as_u128(), n.session.0, "notification session_id");
+            ensure_eq!(parsed.serial(), n.serial, "notification serial");
+            ensure!(parsed.snapshot().uri() == &https(&n.snap_uri)?, "snapshot uri {} read back as {}", n.snap_uri, parsed.snapshot().uri());
+            ensure_eq!(hash_arr(&parsed.snapshot().hash()), hash32(n.snap_hash), "snapshot hash");
+            ensure!(parsed.delta_status().is_ok(), "unlimited parse reports a delta list error");
+            ensure_eq!(parsed.deltas().len(), n.deltas.len(), "number of deltas");
+            for (i, (got, exp)) in parsed.deltas().iter().zip(n.deltas.iter()).enumerate() {
+                ensure!(got.serial() == exp.serial, "delta #{} serial {} read back as {}", i, exp.serial, got.serial());
+                ensure!(got.uri() == &https(&exp.uri)?, "delta #{} uri {} read back as {}", i, exp.uri, got.uri());
+                ensure!(hash_arr(&got.hash()) == hash32(exp.hash), "delta #{} hash differs", i);
+            }
+            ensure!(parsed == value, "parsed notification != written value (library ==)");
+            // parse_limited: documented behaviour on both sides of the limit
+            let limit = c.limit as usize;
+            let limited = with_reader(&xml, c.bufsize, |r| NotificationFile::parse_limited(r, limit))
+                .map_err(|e| Fail::new(format!("parse_limited({}) failed on a written notification: {}", limit, e)))?;
+            if n.deltas.len() > limit {
+                obs.label("over-delta-limit");
+                ensure!(limited.delta_status().is_err(), "{} deltas with limit {}: delta_status is Ok", n.deltas.len(), limit);
+                ensure!(limited.deltas().is_empty(), "oversized delta list not empty");
+                ensure!(limited.serial() == n.serial && limited.session_id().as_u128() == n.session.0, "limited header fields");
+            } else {
+                ensure!(limited == value, "parse_limited({}) with {} deltas differs from the written value", limit, n.deltas.len());
+            }
+            let sp = special(&n.snap_uri) || n.deltas.iter().any(|d| special(&d.uri));
+            obs.label_if(sp, "special-uri");
+            obs.nontrivial_if(sp && !n.deltas.is_empty());
+        }
+        FileSpec::Snapshot(s) => {
+            obs.label("snapshot");
+            let value = build_snapshot(s)?;
+            let parsed = with_reader(&xml, c.bufsize, |r| Snapshot::parse(r));
+            let parsed = match parsed {
+                Ok(p) => p,
+                Err(e) => {
+                    return Err(Fail::sig(
+                        "roundtrip-parse-failed",
+                        format!("written snapshot does not parse back: {} ({} bytes)", e, xml.len()),
+                    ))
+                }
+            };
+            ensure_eq!(parsed.session_id().as_u128(), s.session.0, "snapshot session_id");
+            ensure_eq!(parsed.serial(), s.serial, "snapshot serial");
+            ensure_eq!(parsed.elements().len(), s.elements.len(), "number of publish elements");
+            for (i, (got, exp)) in parsed.elements().iter().zip(s.elements.iter()).enumerate() {
+                ensure!(same_rsync(got.uri(), &exp.uri)?, "publish #{} uri {} read back as {}", i, exp.uri, got.uri());
+                ensure!(got.data().as_ref() == exp.data.bytes().as_slice(), "publish #{} data differs ({} bytes written, {} read)", i, exp.data.bytes().len(), got.data().len());
+            }
+            ensure!(parsed == value, "parsed snapshot != written value (library ==)");
+            // harness processor
+            let mut col = Collector::new(c.read_chunk);
+            with_reader(&xml, c.bufsize, |r| col.process(r))
+                .map_err(|e| Fail::new(format!("ProcessSnapshot::process failed on a written snapshot: {}", e)))?;
+            ensure_eq!(col.seen.len(), s.elements.len() + 1, "number of processor calls");
+            ensure!(col.seen[0] == Seen::Meta(s.session.0, s.serial), "first call is not meta(session, serial): {:?}", col.seen[0]);
+            for (i, exp) in s.elements.iter().enumerate() {
+                match &col.seen[i + 1] {
+                    Seen::Publish(u, None, d) => {
+                        ensure!(same_rsync(&rsync(u)?, &exp.uri)?, "processor publish #{} uri {} vs {}", i, u, exp.uri);
+                        ensure!(d == &exp.data.bytes(), "processor publish #{} data differs (chunk {})", i, c.read_chunk);
+                    }
+                    other => return Err(Fail::new(format!("processor call #{} is {:?}", i + 1, other))),
+                }
+            }
+            let sp = s.elements.iter().any(|e| special(&e.uri));
+            obs.label_if(sp, "special-uri");
+            obs.label_if(s.elements.iter().any(|e| e.data.bytes().is_empty()), "empty-object");
+            obs.nontrivial_if(sp && s.elements.len() >= 2);
+        }
+        FileSpec::Delta(d) => {
+            obs.label("delta");
+            let value = build_delta(d)?;
+            let parsed = with_reader(&xml, c.bufsize, |r| Delta::parse(r));
+            let parsed = match parsed {
+                Ok(p) => p,
+                Err(e) => {
+                    return Err(Fail::sig(
+                        "roundtrip-parse-failed",
+                        format!("written delta does not parse back: {} ({} bytes)", e, xml.len()),
+                    ))
+                }
+            };
+            ensure_eq!(parsed.session_id().as_u128(), d.session.0, "delta session_id");
+            ensure_eq!(parsed.serial(), d.serial, "delta serial");
+            ensure_eq!(parsed.elements().len(), d.elements.len(), "number of delta elements");
+            let mut col = DeltaCollector(Collector::new(c.read_chunk));
+            with_reader(&xml, c.bufsize, |r| col.process(r))
+                .map_err(|e| Fail::new(format!("ProcessDelta::process failed on a written delta: {}", e)))?;
+            ensure_eq!(col.0.seen.len(), d.elements.len() + 1, "number of processor calls");
+            ensure!(col.0.seen[0] == Seen::Meta(d.session.0, d.serial), "first call is not meta(session, serial): {:?}", col.0.seen[0]);
+            for (i, (got, exp)) in parsed.elements().iter().zip(d.elements.iter()).enumerate() {
+                let seen = &col.0.seen[i + 1];
+                match (got, exp, seen) {
+                    (DeltaElement::Publish(g), ElSpec::Publish { uri, data }, Seen::Publish(su, None, sd)) => {
+                        ensure!(same_rsync(g.uri(), uri)? && same_rsync(&rsync(su)?, uri)?, "element #{} publish uri {}", i, uri);
+                        ensure!(g.data().as_ref() == data.bytes().as_slice() && sd == &data.bytes(), "element #{} publish data differs", i);
+                    }
+                    (DeltaElement::Update(g), ElSpec::Update { uri, hash, data }, Seen::Publish(su, Some(sh), sd)) => {
+                        ensure!(same_rsync(g.uri(), uri)? && same_rsync(&rsync(su)?, uri)?, "element #{} update uri {}", i, uri);
+                        ensure!(hash_arr(g.hash()) == hash32(*hash) && *sh == hash32(*hash), "element #{} update hash", i);
+                        ensure!(g.data().as_ref() == data.bytes().as_slice() && sd == &data.bytes(), "element #{} update data differs", i);
+                    }
+                    (DeltaElement::Withdraw(g), ElSpec::Withdraw { uri, hash }, Seen::Withdraw(su, sh)) => {
+                        ensure!(same_rsync(g.uri(), uri)? && same_rsync(&rsync(su)?, uri)?, "element #{} withdraw uri {}", i, uri);
+                        ensure!(hash_arr(g.hash()) == hash32(*hash) && *sh == hash32(*hash), "element #{} withdraw hash", i);
+                    }
+                    (g, e, s) => {
+                        return Err(Fail::new(format!("element #{}: written {:?}, parsed {:?}, processor saw {:?}", i, e, g, s)))
+                    }
+                }
+            }
+            ensure!(parsed == value, "parsed delta != written value (library ==)");
+            let uri_of = |e: &ElSpec| match e {
+                ElSpec::Publish { uri, .. } | ElSpec::Update { uri, .. } | ElSpec::Withdraw { uri, .. } => uri.clone(),
+            };
+            let sp = d.elements.iter().any(|e| special(&uri_of(e)));
+            obs.label_if(sp, "special-uri");
+            obs.nontrivial_if(sp && d.elements.len() >= 2);
+        }
+    }
+    obs.label_if(c.bufsize != 0 && c.bufsize < 64, "tiny-buffer");
+    Ok(())
+}
+
+//------------ big files ---------------------------------------------------------------
+
+#[derive(Clone, Debug, Serialize, Deserialize)]
+pub struct Big {
+    /// 0 notification, 1 snapshot, 2 delta
+    pub kind: u8,
+    pub elements: u32,
+    pub object_len: u32,
+}
+
+fn big_cases(tier: Tier) -> Vec<Big> {
+    let mut v = vec![
+        Big { kind: 0, elements: 9000, object_len: 0 },
+        Big { kind: 1, elements: 24, object_len: 65536 },
+        Big { kind: 2, elements: 24, object_len: 65536 },
+        Big { kind: 1, elements: 1, object_len: 1_600_000 },
+        Big { kind: 2, elements: 2, object_len: 900_000 },
+    ];
+    if tier == Tier::Thorough {
+        v.push(Big { kind: 0, elements: 60_000, object_len: 0 });
+        v.push(Big { kind: 1, elements: 300, object_len: 65536 });
+        v.push(Big { kind: 1, elements: 1, object_len: 18_000_000 });
+        v.push(Big { kind: 2, elements: 3, object_len: 6_000_000 });
+    }
+    v
+}
+
+fn run_big(c: &Big, obs: &mut Obs) -> CheckResult {
+    obs.nontrivial();
+    let session = U128(0x9df4b597_af9e_4dca_bdda_719cce2c4e28);
+    let spec = match c.kind {
+        0 => FileSpec::Notification(NotifSpec {
+            session,
+            serial: c.elements as u64,
+            snap_uri: "https://rrdp.example.net/&'/snapshot.xml".into(),
+            snap_hash: 7,
+            deltas: (0..c.elements as u64)
+                .map(|i| DeltaInfoSpec {
+                    serial: i + 1,
+                    uri: format!("https://rrdp.example.net/{}/{}/delta.xml", session.0, i + 1),
+                    hash: i + 1,
+                })
+                .collect(),
+        }),
+        1 => FileSpec::Snapshot(SnapSpec {
+            session,
+            serial: 5,
+            elements: (0..c.elements)
+                .map(|i| PubSpec { uri: format!("rsync://example.net/repo/o{}.cer", i), data: DataSpec::Gen { seed: i as u64 + 1, len: c.object_len } })
+                .collect(),
+        }),
+        _ => FileSpec::Delta(DeltaSpec {
+            session,
+            serial: 5,
+            elements: (0..c.elements)
+                .map(|i| {
+                    if i % 2 == 0 {
+                        ElSpec::Publish { uri: format!("rsync://example.net/repo/o{}.cer", i), data: DataSpec::Gen { seed: i as u64 + 1, len: c.object_len } }
+                    } else {
+                        ElSpec::Update { uri: format!("rsync://example.net/repo/o{}.cer", i), hash: 3, data: DataSpec::Gen { seed: i as u64 + 1, len: c.object_len } }
+                    }
+                })
+                .collect(),
+        }),
+    };
+    let xml = write_file(&spec)?;
+    obs.label(if xml.len() > 1_000_000 { "over-header-limit" } else { "small" });
+    let sig = "big-file-rejected";
+    match &spec {
+        FileSpec::Notification(n) => {
+            let p = NotificationFile::parse(io::BufReader::with_capacity(8192, xml.as_slice()));
+            ensure_sig!(p.is_ok(), sig, "a {} byte notification with {} deltas (each element far below the limit) is rejected: {}", xml.len(), n.deltas.len(), p.err().map(|e| e.to_string()).unwrap_or_default());
+            ensure!(p.unwrap() == build_notification(n)?, "big notification differs after round trip");
+        }
+        FileSpec::Snapshot(s) => {
+            let p = Snapshot::parse(io::BufReader::with_capacity(8192, xml.as_slice()));
+            ensure_sig!(p.is_ok(), sig, "a {} byte snapshot with {} objects of {} bytes is rejected: {}", xml.len(), c.elements, c.object_len, p.err().map(|e| e.to_string()).unwrap_or_default());
+            ensure!(p.unwrap() == build_snapshot(s)?, "big snapshot differs after round trip");
+        }
+        FileSpec::Delta(d) => {
+            let p = Delta::parse(io::BufReader::with_capacity(8192, xml.as_slice()));
+            ensure_sig!(p.is_ok(), sig, "a {} byte delta with {} objects of {} bytes is rejected: {}", xml.len(), c.elements, c.object_len, p.err().map(|e| e.to_string()).unwrap_or_default());
+            ensure!(p.unwrap() == build_delta(d)?, "big delta differs after round trip");
+        }
+    }
+    Ok(())
+}
+
+//------------ deltas / origins ----------------------------------------------------------
+
+#[derive(Clone, Debug, Serialize, Deserialize)]
+pub struct Chain {
+    pub serials: Vec<u64>,
+    pub limit: Option<u32>,
+    /// authority of the base URI, of the snapshot URI and of each delta URI
+    pub base_auth: String,
+    pub snap_auth: String,
+    pub delta_auth: Vec<String>,
+}
+
+fn auth_strategy() -> BoxedStrategy<String> {
+    prop_oneof![
+        6 => Just("rrdp.example.net".to_string()),
+        2 => Just("RRDP.Example.NET".to_string()),
+        1 => Just("rrdp.example.net:443".to_string()),
+        1 => Just("rrdp.example.org".to_string()),
+        1 => Just("rrdp.example.ne".to_string()),
+        1 => Just("rrdp.example.nett".to_string()),
+        1 => Just(String::new()),
+        1 => authority(),
+    ]
+    .boxed()
+}
+
+fn chain_strategy(_: Tier) -> BoxedStrategy<Chain> {
+    let serials = (
+        prop_oneof![
+            3 => prop::sample::select(vec![0u64, 1, 1000, u32::MAX as u64 - 2, (1u64 << 63) - 2, u64::MAX - 3, u64::MAX - 1, u64::MAX]),
+            1 => any::<u64>(),
+        ],
+        prop_oneof![
+            // a consecutive run, in random order
+            3 => (0usize..9).prop_flat_map(|n| Just((0..n as u64).collect::<Vec<u64>>()).prop_shuffle()),
+            // arbitrary small offsets: duplicates and gaps
+            4 => prop::collection::vec(0u64..8, 0..9),
+            1 => prop::collection::vec(any::<u64>(), 0..5),
+        ],
+    )
+        .prop_map(|(base, offs)| offs.into_iter().map(|o| base.saturating_add(o)).collect::<Vec<u64>>());
+    serials
+        .prop_flat_map(|serials| {
+            let n = serials.len() as u32;
+            let limit = prop_oneof![
+                3 => Just(None),
+                2 => Just(Some(0u32)),
+                1 => Just(Some(1u32)),
+                1 => Just(Some(2u32)),
+                1 => Just(Some(n.saturating_sub(1))),
+                1 => Just(Some(n)),
+                1 => Just(Some(n + 1)),
+                1 => Just(Some(u32::MAX)),
+            ];
+            let k = serials.len();
+            (Just(serials), limit, auth_strategy(), auth_strategy(), prop::collection::vec(auth_strategy(), k..=k))
+        })
+        .prop_map(|(serials, limit, base_auth, snap_auth, delta_auth)| Chain { serials, limit, base_auth, snap_auth, delta_auth })
+        .boxed()
+}
+
+fn run_chain(c: &Chain, obs: &mut Obs) -> CheckResult {
+    ensure!(c.delta_auth.len() == c.serials.len(), "malformed case: one authority per delta needed");
+    let mk = |auth: &str, path: &str| https(&format!("https://{}/{}", auth, path));
+    let base = mk(&c.base_auth, "notification.xml")?;
+    let mut deltas = Vec::new();
+    for (i, (s, a)) in c.serials.iter().zip(c.delta_auth.iter()).enumerate() {
+        deltas.push(DeltaInfo::new(*s, mk(a, &format!("d{}/delta.xml", i))?, Hash::from(hash32(i as u64 + 1))));
+    }
+    let mut nf = NotificationFile::new(
+        Uuid::from_u128(1),
+        c.serials.iter().copied().max().unwrap_or(0),
+        UriAndHash::new(mk(&c.snap_auth, "snapshot.xml")?, Hash::from(hash32(9))),
+        deltas,
+    );
+
+    // origin check: every authority equals the base authority ignoring ASCII case
+    let exp_origin = std::iter::once(&c.snap_auth).chain(c.delta_auth.iter()).all(|a| a.eq_ignore_ascii_case(&c.base_auth));
+    let got_origin = nf.has_matching_origins(&base);
+    ensure!(
+        got_origin == exp_origin,
+        "has_matching_origins(base authority '{}') = {}, expected {} (snapshot '{}', deltas {:?})",
+        c.base_auth, got_origin, exp_origin, c.snap_auth, c.delta_auth
+    );
+    obs.label(if exp_origin { "origins-match" } else { "origins-differ" });
+
+    // model of sort_and_verify_deltas
+    let mut sorted = c.serials.clone();
+    sorted.sort();
+    let limit = c.limit.map(|l| l as usize);
+    let retained: Vec<u64> = match limit {
+        Some(l) if l < sorted.len() => sorted[sorted.len() - l..].to_vec(),
+        _ => sorted.clone(),
+    };
+    let expected = retained.windows(2).all(|w| w[0].checked_add(1) == Some(w[1]));
+    let gap_or_dup = sorted.windows(2).any(|w| w[0].checked_add(1) != Some(w[1]));
+    obs.nontrivial_if(c.serials.len() >= 3 && gap_or_dup);
+    obs.label(if expected { "consecutive" } else { "not-consecutive" });
+    obs.label_if(gap_or_dup, "gap-or-dup");
+    obs.label_if(limit == Some(0), "limit-0");
+    obs.label_if(limit.map(|l| l < sorted.len()).unwrap_or(false), "truncating-limit");
+
+    let got = match no_panic("sort_and_verify_deltas", || nf.sort_and_verify_deltas(limit)) {
+        Ok(g) => g,
+        Err(f) => {
+            // stable signatures for the two known shapes (finding F14)
+            let sig = if limit == Some(0) && !c.serials.is_empty() {
+                "sort-verify-limit-zero-panic".to_string()
+            } else if retained.windows(2).any(|w| w[0] == u64::MAX) {
+                "sort-verify-serial-overflow-panic".to_string()
+            } else {
+                f.sig.clone()
+            };
+            return Err(Fail::sig(sig, format!("serials {:?} limit {:?}: {}", c.serials, limit, f.msg)));
+        }
+    };
+    ensure!(
+        got == expected,
+        "sort_and_verify_deltas({:?}) on serials {:?} returned {}, model (retained {:?}) says {}",
+        limit, c.serials, got, retained, expected
+    );
+    // documented effect: sorted by increasing serial, at most `limit` newest retained
+    let after: Vec<u64> = nf.deltas().iter().map(|d| d.serial()).collect();
+    if expected {
+        ensure!(after == retained, "after a successful check the delta list is {:?}, expected the retained deltas {:?}", after, retained);
+    } else {
+        ensure!(after.len() == retained.len(), "retained {} deltas, expected {}", after.len(), retained.len());
+    }
+    Ok(())
+}
+
+//------------ property ---------------------------------------------------------------------
 
 pub fn property() -> Property {
-    Property { id: "C09", rule: "", assumptions: vec![], subs: vec![] }
+    Property {
+        id: "C09",
+        rule: RULE,
+        assumptions: vec![
+            "the two configured limits are MAX_HEADER_SIZE = 1 000 000 (root elements, children of a notification) and MAX_FILE_SIZE = 100 000 000 (children of snapshot/delta roots and whatever follows them), as in src/rrdp.rs",
+            "streams made of endlessly many valid elements are unbounded by design (parse_limited exists) and are not generated",
+            "peak heap is not measured (the engine has no counting allocator); bytes consumed from the counting reader is the bound that is checked",
+            "URIs compare as the library compares them (scheme and authority ignoring ASCII case)",
+        ],
+        subs: vec![
+            PropSub {
+                name: "roundtrip",
+                strategy: roundtrip_strategy,
+                cases: |t| t.pick(60_000, 2_500_000),
+                run: run_roundtrip,
+                floors: &[("notification", 0.15), ("snapshot", 0.15), ("delta", 0.15), ("special-uri", 0.25), ("empty-object", 0.05), ("tiny-buffer", 0.1), ("over-delta-limit", 0.0005)],
+            }
+            .boxed(),
+            EnumSub {
+                name: "big",
+                count: |t, _| big_cases(t).len() as u64,
+                make: |t, _, i| big_cases(t)[i as usize].clone(),
+                run: run_big,
+                exhaustive: false,
+            }
+            .boxed(),
+            bytes_check::sub(),
+            streams::header_sub(),
+            streams::file_sub(),
+            PropSub {
+                name: "deltas",
+                strategy: chain_strategy,
+                cases: |t| t.pick(300_000, 10_000_000),
+                run: run_chain,
+                floors: &[("consecutive", 0.15), ("not-consecutive", 0.15), ("gap-or-dup", 0.2), ("limit-0", 0.05), ("truncating-limit", 0.1), ("origins-match", 0.03), ("origins-differ", 0.3)],
+            }
+            .boxed(),
+        ],
+    }
 }
